@@ -30,6 +30,7 @@ class Loop:
         self.start = info.get("init")
         b = info.get("bound") or (None, None)
         self.op, self.bound = b[0], b[1]
+        self.offset = info.get("offset")        # loop runs while ivar + offset OP bound
         self.steps = info.get("steps", [])
         self.header = nl.header
 
@@ -697,17 +698,394 @@ def check_small_vector_selection(ctx, unit, cls="frg::small_vector", rule="E.inl
                 v = r.child("val")
                 if v is None or "*" not in (f.get("ret") or ""):
                     continue
-                p = path(std_unwrap(v))
+                vv = std_unwrap(v)          # (sees through a virtually inlined accessor)
+                p = path(vv)
                 if p == ("this", heap):
                     k += 1
                     judge(f, r, True, "heap pointer returned", k)
-                elif any(x.kind == "MemberExpr" and x.get("mk") == "Field" and x.m in inline and path(x) == ("this", x.m) for x in v.walk()):
+                elif any(x.kind == "MemberExpr" and x.get("mk") == "Field" and x.m in inline and path(x) == ("this", x.m) for x in list(v.walk()) + list(vv.walk())):
                     k += 1
                     judge(f, r, False, "inline buffer returned", k)
             if f.kind == "dtor":
                 for i, n in enumerate(free_calls(f)):
                     if n.kind == "CXXMemberCallExpr":
                         judge(f, n, True, "heap buffer released", i + 1)
+
+
+def inline_layout(rec, fns):
+    """(heap pointer field, capacity field, inline extent N) of a class with inline element storage, or None:
+    the capacity field is the one a constructor initialises with the (substituted) non-type template argument."""
+    heap = [fl["n"] for fl in rec["fields"] if fl.get("ptr")]
+    capf, N = None, None
+    for f in fns:
+        if f.kind != "ctor":
+            continue
+        for n in f.events():
+            if n.kind == "CtorInit" and n.get("field") and n.get("init") is not None:
+                iv = f.node(n.get("init"))
+                x = iv
+                while x is not None and x.kind in ("ImplicitCastExpr", "ParenExpr") and x.children:
+                    x = x.children[0]
+                if x is not None and x.kind == "SubstNonTypeTemplateParmExpr" and iv.strip().cv() is not None:
+                    capf, N = n.get("field"), iv.strip().cv()
+    if len(heap) != 1 or capf is None:
+        return None
+    return heap[0], capf, N
+
+
+class StorageExchange:
+    """swap(a, b) of a class whose elements may live in an inline array (raw aligned_storage) inside the object.
+
+    The inline array cannot be exchanged like the other members: its live elements have to change sides one by one
+    (move-construct on the other side, destroy here).  Path-sensitive statement, free of names and of the shape of
+    the case split: along every path to the exit, for each side X with other side Y, EITHER the branch decisions
+    taken exclude that X is inline (decisions are evaluated semantically, through one-line predicate members, under
+    the valuations capacity(X), capacity(Y) in {N-1, N, N+1}), OR the path passes a relocation X -> Y: a placement
+    new whose address designates Y's elements and whose initialiser is moved from X's elements (directly or through
+    a local temporary), and a destructor call on X's elements.  Relocations inside a loop count for every path
+    through the loop header (a zero-trip loop relocates the empty range)."""
+
+    def __init__(self, unit, rec, f, fns):
+        self.f, self.rec = f, rec
+        self.stor = [fl["n"] for fl in rec["fields"] if "aligned_storage" in fl["t"]]
+        lay = inline_layout(rec, fns)
+        if lay is None:
+            raise AnalysisBroken("anchor vanished: %s: heap pointer field / capacity field initialised with the inline extent" % rec["qn"])
+        self.heap, self.capf, self.N = lay
+        ps = [("p:%s" % p["n"]) for p in f.params()]
+        # path roots carry the declaration id after the name
+        self.roots = []
+        own = {p["d"] for p in f.params()}      # (parameters of virtually inlined helpers are not sides of the swap)
+        for n in f.all_nodes():
+            if n.kind == "DeclRefExpr" and n.get("dk") == "ParmVar" and n.d.get("d") in own:
+                p = path(n)
+                if p and len(p) == 1 and p[0] not in self.roots:
+                    self.roots.append(p[0])
+        if len(f.params()) == 1:
+            self.roots = ["this"] + self.roots
+        self.by_name = {}
+        for g in fns:
+            self.by_name.setdefault(g.name, []).append(g)
+        self.inits = RA.local_inits(f)
+        self.bind = f.bind_map()
+        self.trigger = {}
+        self._events()
+
+    # -- which object's elements does a pointer / element expression designate?
+    def elems_roots(self, node, depth=0, seen=None):
+        seen = seen if seen is not None else set()
+        out = set()
+        if node is None or depth > 8:
+            return out
+        node = std_unwrap(node)
+        for x in node.walk():
+            if x.kind == "MemberExpr" and x.get("mk") == "Field" and x.m in self.stor + [self.heap]:
+                p = path(x)
+                if p and len(p) == 2:
+                    out.add(p[0])
+            elif x.kind == "CXXMemberCallExpr" and x.callee and x.callee.get("cls") == self.rec["uq"] and x.child("obj") is not None:
+                rt = x.get("t") or ""
+                p = path(x.child("obj"))
+                if p and len(p) == 1 and ("*" in rt or "&" in rt or x.callee["n"] in self.by_name and any(
+                        "*" in (g.get("ret") or "") or "&" in (g.get("ret") or "") for g in self.by_name[x.callee["n"]])):
+                    out.add(p[0])
+            elif x.kind == "DeclRefExpr" and x.get("local") and x.get("dk") in ("Var", "ParmVar"):
+                d = x.d["d"]
+                if d in seen:
+                    continue
+                seen.add(d)
+                if d in self.bind:
+                    out |= self.elems_roots(self.f.node(self.bind[d]), depth + 1, seen)
+                elif d in self.inits:
+                    out |= self.elems_roots(self.inits[d], depth + 1, seen)
+            if x.d.get("inlined") and len(x.d.get("rets", [])) == 1:
+                out |= self.elems_roots(self.f.node(x.d["rets"][0]), depth + 1, seen)
+        return out
+
+    def _events(self):
+        f = self.f
+        pos = f.positions()
+        loops = flow.natural_loops(f)
+
+        def triggers(n):
+            cur, hops = n, 0
+            while cur is not None and cur.id not in pos and hops < 60:
+                cur, hops = f.parent(cur), hops + 1
+            if cur is None:
+                return []
+            b = pos[cur.id][0]
+            outer = None
+            for lp in loops:
+                if b in lp.body and (outer is None or len(lp.body) > len(outer.body)):
+                    outer = lp
+            if outer is None:
+                return [cur.id]
+            return [x.id for x in f.blocks[outer.header].nodes()]
+        self.n_new = self.n_dtor = 0
+        self.ranges = {}            # event node id -> (kind, x, y | None, (lo Poly, hi Poly) | None)
+        self._loops = for_loops(f)
+        for n in f.events():
+            toks = set()
+            if n.kind == "CXXNewExpr" and n.get("placement") and n.get("pargs"):
+                dst = self.elems_roots(f.node(n.get("pargs")[0]))
+                init = n.child("init")
+                src = self.elems_roots(init) if init is not None else set()
+                for y in dst:
+                    for x in src:
+                        if x != y:
+                            toks.add(("new", x, y))
+                            toks.add(("ev", n.id))
+                            self.ranges[n.id] = ("new", x, y, self._new_range(n, x, y))
+                            self.n_new += 1
+            o = is_dtor_call(n)
+            if o is not None:
+                for x in self.elems_roots(o):
+                    toks.add(("dtor", x))
+                    toks.add(("ev", n.id))
+                    self.ranges[n.id] = ("dtor", x, None, self._elem_range(o, n, x))
+                    self.n_dtor += 1
+            for t in triggers(n) if toks else ():
+                self.trigger.setdefault(t, set()).update(toks)
+
+    # -- which index range of X's elements does an event cover?
+    def _leaf(self, n, depth=0):
+        from .poly import Poly, to_poly
+        n0, n = n, std_unwrap(n)
+        if n.id != n0.strip().id and depth < 8 and (n.kind == "BinaryOperator" or n.cv() is not None):
+            r = to_poly(n, lambda x: self._leaf(x, depth + 1))      # std_unwrap looked through a parameter binding
+            if r is not None:
+                return r
+        if n.kind == "DeclRefExpr" and n.get("local"):
+            d = n.d["d"]
+            if d in self.bind and depth < 8:
+                return to_poly(self.f.node(self.bind[d]), lambda x: self._leaf(x, depth + 1))
+            if d in self.inits and not RA._reassigned(self.f, d) and depth < 8:
+                iv = std_unwrap(self.inits[d])
+                if iv.kind in ("BinaryOperator", "IntegerLiteral", "DeclRefExpr", "MemberExpr") or iv.cv() is not None:
+                    r = to_poly(iv, lambda x: self._leaf(x, depth + 1))
+                    if r is not None:
+                        return r
+            return Poly.sym("v#%d" % d)
+        p_ = path(n)
+        if p_ and len(p_) == 2:
+            return Poly.sym("%s.%s" % (p_[0], p_[1]))
+        return Poly.sym("e:" + canon(n))
+
+    def _ptr(self, node, root, depth=0):
+        """pointer expression -> offset Poly from the start of root's element array (None = unknown)."""
+        from .poly import Poly, to_poly
+        if node is None or depth > 10:
+            return None
+        x = std_unwrap(node)
+        while x.kind in ("CXXReinterpretCastExpr", "CStyleCastExpr", "CXXStaticCastExpr", "ParenExpr", "ImplicitCastExpr") and x.children:
+            x = std_unwrap(x.children[0])
+        if x.kind == "UnaryOperator" and x.op == "&" and x.children:
+            return self._elem(x.children[0], root, depth + 1)
+        if x.kind == "BinaryOperator" and x.op == "+":
+            for a_, b_ in ((x.children[0], x.children[1]), (x.children[1], x.children[0])):
+                base = self._ptr(a_, root, depth + 1)
+                if base is not None:
+                    k = to_poly(b_, self._leaf)
+                    return None if k is None else base + k
+            return None
+        if x.kind == "DeclRefExpr" and x.get("local"):
+            d = x.d["d"]
+            if d in self.bind:
+                return self._ptr(self.f.node(self.bind[d]), root, depth + 1)
+            if d in self.inits and not RA._reassigned(self.f, d):
+                return self._ptr(self.inits[d], root, depth + 1)
+            return None
+        if x.kind == "CXXMemberCallExpr" and x.callee and x.child("obj") is not None and path(x.child("obj")) == (root,):
+            # an accessor that returns the start of the element array: every return value is a storage / buffer field
+            # (possibly cast, possibly `&field[0]...`), never an offset into it
+            for g in self.by_name.get(x.callee["n"], ()):
+                for r in g.return_nodes():
+                    v = r.child("val")
+                    if v is None or any(y.kind == "BinaryOperator" and y.op in ("+", "-") for y in std_unwrap(v).walk()):
+                        return None
+            return Poly.const(0)
+        if x.kind == "MemberExpr" and x.get("mk") == "Field":
+            p_ = path(x)
+            if p_ and p_[0] == root and len(p_) == 2 and p_[1] in self.stor + [self.heap]:
+                return Poly.const(0)
+            # &root._array[0].buffer
+            if x.children:
+                return self._ptr_through(x.children[0], root, depth + 1)
+        if x.d.get("inlined") and len(x.d.get("rets", [])) == 1:
+            return self._ptr(self.f.node(x.d["rets"][0]), root, depth + 1)
+        return None
+
+    def _ptr_through(self, node, root, depth):
+        x = std_unwrap(node)
+        if x.kind == "ArraySubscriptExpr" and std_unwrap(x.children[1]).cv() == 0:
+            b = std_unwrap(x.children[0])
+            p_ = path(b)
+            if p_ and p_[0] == root and len(p_) == 2 and p_[1] in self.stor:
+                from .poly import Poly
+                return Poly.const(0)
+        return None
+
+    def _elem(self, node, root, depth=0):
+        """element expression -> index Poly within root's element array (None = unknown)."""
+        from .poly import to_poly
+        if node is None or depth > 10:
+            return None
+        x = std_unwrap(node)
+        if x.kind == "ArraySubscriptExpr":
+            base = self._ptr(x.children[0], root, depth + 1)
+            idx = to_poly(x.children[1], self._leaf)
+            return None if base is None or idx is None else base + idx
+        if x.kind == "UnaryOperator" and x.op == "*" and x.children:
+            return self._ptr(x.children[0], root, depth + 1)
+        if x.kind in ("CXXConstructExpr", "CXXTemporaryObjectExpr") and len(x.args) == 1:
+            return self._elem(x.args[0], root, depth + 1)
+        if x.kind == "DeclRefExpr" and x.get("local"):
+            d = x.d["d"]
+            if d in self.bind:
+                return self._elem(self.f.node(self.bind[d]), root, depth + 1)
+            if d in self.inits and not RA._reassigned(self.f, d):
+                return self._elem(self.inits[d], root, depth + 1)
+        return None
+
+    def _span(self, idx, at):
+        """index Poly that may mention the counter of the loop enclosing element `at` -> (lo, hi) Polys."""
+        from .poly import Poly, to_poly
+        if idx is None:
+            return None
+        pos = self.f.positions()
+        cur, hops = at, 0
+        while cur is not None and cur.id not in pos and hops < 60:
+            cur, hops = self.f.parent(cur), hops + 1
+        if cur is None:
+            return None
+        b = pos[cur.id][0]
+        inner = None
+        for lp in self._loops:
+            if b in lp.nl.body and (inner is None or len(lp.nl.body) < len(inner.nl.body)):
+                inner = lp
+        syms = {s_ for k in idx.t for s_ in k}
+        if inner is None:
+            if any(s_.startswith("v#") and self._is_counter(int(s_[2:])) for s_ in syms):
+                return None
+            return (idx, idx + Poly.const(1))
+        iv = "v#%d" % inner.ivar
+        # exactly linear in the counter with coefficient 1, counting up by one from start while counter < bound
+        if idx.t.get((iv,), 0) != 1 or any(iv in k and k != (iv,) for k in idx.t):
+            return None
+        st = inner.step_of()
+        if st is None or st[0] != "++" or inner.op not in ("<", "!=") or inner.offset is not None or inner.start is None or inner.bound is None:
+            return None
+        rest = idx - Poly.sym(iv)
+        if any(s_.startswith("v#") and self._is_counter(int(s_[2:])) for k in rest.t for s_ in k):
+            return None
+        lo = to_poly(inner.start, self._leaf)
+        hi = to_poly(inner.bound, self._leaf)
+        if lo is None or hi is None:
+            return None
+        return (rest + lo, rest + hi)
+
+    def _is_counter(self, d):
+        return any(lp.ivar == d for lp in self._loops)
+
+    def _elem_range(self, elem, at, root):
+        return self._span(self._elem(elem, root), at)
+
+    def _new_range(self, n, x, y):
+        """placement new moving X's element i into Y's slot j: the covered range of X, provided i == j."""
+        f = self.f
+        dst = self._ptr(f.node(n.get("pargs")[0]), y)
+        init = n.child("init")
+        src = None
+        if init is not None:
+            iv = std_unwrap(init)
+            args = iv.args if iv.kind in ("CXXConstructExpr", "CXXTemporaryObjectExpr") else [iv]
+            if len(args) == 1:
+                src = self._elem(args[0], x)
+        if dst is None or src is None:
+            return None
+        if not (dst == src):
+            return ("shifted", src, dst)
+        return self._span(src, n)
+
+    def coverage(self, tokens, x, y):
+        """None when the relocated ranges of X (new into Y, destroyed in X) chain up from 0 to X's size or when a
+        range is not understood (then only presence is required); otherwise a description of the gap."""
+        from .poly import Poly
+        ints = [fl["n"] for fl in self.rec["fields"] if not fl.get("ptr") and not fl.get("rt") and fl["n"] != self.capf
+                and "aligned_storage" not in fl["t"]]
+        if len(ints) != 1:
+            return None
+        size = Poly.sym("%s.%s" % (x, ints[0]))
+        evs = [self.ranges[t[1]] for t in tokens if isinstance(t, tuple) and t[0] == "ev" and t[1] in self.ranges]
+        for kind, what in (("new", "moved into %s" % y.split("#")[0]), ("dtor", "destroyed")):
+            rs = [e[3] for e in evs if e[0] == kind and e[1] == x and (kind == "dtor" or e[2] == y)]
+            sh = [r for r in rs if r is not None and r[0] == "shifted"]
+            if sh:
+                return "element [%r] of %s is moved into slot [%r] of %s: positions are not preserved" % (sh[0][1], x.split("#")[0], sh[0][2], y.split("#")[0])
+            if not rs or any(r is None for r in rs):
+                continue
+            cur, used = Poly.const(0), set()
+            while True:
+                nxt = [i for i, r in enumerate(rs) if i not in used and r[0] == cur]
+                if not nxt:
+                    break
+                used.add(nxt[0])
+                cur = rs[nxt[0]][1]
+            if not (cur == size):
+                return "the elements of %s %s cover [0, %r) %s, not [0, %r)" % (
+                    x.split("#")[0], what, cur, "(ranges %s)" % ", ".join("[%r, %r)" % r for r in rs), size)
+        return None
+
+    # -- branch decisions -> capacities that remain possible
+    def ev(self, node, env, depth=0):
+        def leaf(x):
+            x = x.strip()
+            p = path(x)
+            if p and len(p) == 2 and p[0] in env and p[1] in env[p[0]]:
+                return env[p[0]][p[1]]
+            if x.kind == "CXXMemberCallExpr" and x.callee and depth < 3 and x.child("obj") is not None:
+                po = path(x.child("obj"))
+                if po and len(po) == 1 and po[0] in env:
+                    for g in self.by_name.get(x.callee["n"], ()):
+                        rs = g.return_nodes()
+                        if len(rs) == 1 and rs[0].child("val") is not None and not g.params():
+                            return self.ev(rs[0].child("val"), {"this": env[po[0]]}, depth + 1)
+            return None
+        return flow.sem_eval(node, leaf)
+
+    def initial(self):
+        import itertools
+        N = self.N
+        return frozenset(itertools.product((N - 1, N, N + 1), repeat=len(self.roots)))
+
+    def refine(self, cond, truth, vals):
+        keep = []
+        for v in vals:
+            env = {r: {self.capf: c} for r, c in zip(self.roots, v)}
+            r = self.ev(cond, env)
+            if r is None or bool(r) == truth:
+                keep.append(v)
+        return frozenset(keep)
+
+    def missing(self, tokens, vals):
+        """Sides whose inline elements are not handed over on a path with these tokens / possible capacities."""
+        out = []
+        for i, x in enumerate(self.roots):
+            may_inline = any(v[i] <= self.N for v in vals)
+            if not may_inline:
+                continue
+            for y in self.roots:
+                if y == x:
+                    continue
+                if ("new", x, y) not in tokens or ("dtor", x) not in tokens:
+                    out.append("%s may be inline here but its elements are not relocated into %s (%s)" % (
+                        x.split("#")[0], y.split("#")[0],
+                        "no placement new from them" if ("new", x, y) not in tokens else "they are not destroyed on this side"))
+                else:
+                    gap = self.coverage(tokens, x, y)
+                    if gap:
+                        out.append("%s may be inline here but %s" % (x.split("#")[0], gap))
+        return out
 
 
 # ---- O7: no use after destroy / free ------------------------------------------------------------------
@@ -880,3 +1258,222 @@ def check_stale_buffer(ctx, unit, classes, rule="K.stale-buffer"):
                          "; ".join(sorted(set(bad))[:2]) if bad else "%d storage pointers, none used after a reallocating call" % len(dep), f)
             if n_locals == 0:
                 ctx.broken("%s: no local storage pointers found (anchor vanished)" % rec["qn"])
+
+
+def check_built_into_kept_storage(ctx, unit, classes, rule="K.built-into-kept-storage"):
+    """Growth constructs the new element(s) BEFORE the old elements are relocated (so that an argument that aliases an
+    element is still alive).  The new element therefore has to be built in the array that is kept: on a path on which the
+    buffer field is replaced (or the old block freed), a placement new whose address designates the storage the container
+    had on entry -- the buffer field, the result of a storage accessor fetched before, a lambda parameter bound to
+    either -- builds an object in storage that the same call abandons.  Decided per path on the member together with
+    its new helpers / lambdas (virtually inlined); what a pointer designates is resolved through locals, parameter
+    bindings, `&p[i]` and `p + k`."""
+    ctx.rule(rule, "no element is constructed (placement new) in the storage a container had on entry on a path that afterwards replaces the "
+             "buffer field or frees that storage: a new element is built in the array that is kept", len(classes))
+    for cls in classes:
+        n_new = 0
+        for rec in recs_of(unit, cls):
+            fns = cls_fns(unit, rec["qn"])
+            by_did = {f.did: f for f in fns}
+            ptr_fields = {fl["n"] for fl in rec["fields"] if fl.get("ptr")}
+            stor_fields = {fl["n"] for fl in rec["fields"] if "aligned_storage" in fl["t"]}
+            acc = set()         # members returning a pointer into the storage
+            for g in fns:
+                if "*" in (g.get("ret") or "") and any(
+                        x.kind == "MemberExpr" and x.get("mk") == "Field" and x.m in ptr_fields | stor_fields and path(x) == ("this", x.m)
+                        for r in g.return_nodes() if r.child("val") is not None for x in r.child("val").walk()):
+                    acc.add(g.did)
+            grew = True
+            while grew:
+                grew = False
+                for g in fns:
+                    if g.did in acc or "*" not in (g.get("ret") or ""):
+                        continue
+                    for r in g.return_nodes():
+                        v = r.child("val")
+                        if v is not None and any(x.is_call() and x.callee and x.callee.get("did") in acc for x in std_unwrap(v).walk()):
+                            acc.add(g.did); grew = True
+            for f in fns:
+                if f.kind == "dtor":
+                    continue
+                inits = RA.local_inits(f)
+                bind = f.bind_map()
+
+                def old_storage(node, depth=0, seen=None):
+                    """True when the pointer expression designates storage reached through the object's own fields
+                    (False for a fresh allocation, None when unknown)."""
+                    seen = seen if seen is not None else set()
+                    if node is None or depth > 10:
+                        return None
+                    x = std_unwrap(node)
+                    while True:
+                        if x.kind == "UnaryOperator" and x.op == "&" and x.children:
+                            x = std_unwrap(x.children[0]); continue
+                        if x.kind == "ArraySubscriptExpr":
+                            x = std_unwrap(x.children[0]); continue
+                        if x.kind == "BinaryOperator" and x.op in ("+", "-"):
+                            x = std_unwrap(x.children[0]); continue
+                        if x.kind in ("CXXReinterpretCastExpr", "CStyleCastExpr", "CXXStaticCastExpr", "ParenExpr", "ImplicitCastExpr") and x.children:
+                            x = std_unwrap(x.children[0]); continue
+                        break
+                    if x.kind == "MemberExpr" and x.get("mk") == "Field":
+                        p_ = path(x)
+                        if p_ and p_[0] == "this" and len(p_) >= 2 and p_[1] in ptr_fields | stor_fields:
+                            return True
+                        if x.children:
+                            return old_storage(x.children[0], depth + 1, seen)
+                    if x.kind == "CXXMemberCallExpr" and x.callee and x.callee.get("did") in acc and path(x.child("obj")) == ("this",):
+                        return True
+                    if x.is_call() and x.callee and x.callee["n"] in ("allocate",):
+                        return False
+                    if x.kind == "DeclRefExpr" and x.get("local"):
+                        d = x.d["d"]
+                        if d in seen:
+                            return None
+                        seen.add(d)
+                        if d in bind:
+                            return old_storage(f.node(bind[d]), depth + 1, seen)
+                        if d in inits and not RA._reassigned(f, d):
+                            return old_storage(inits[d], depth + 1, seen)
+                    return None
+                news = {}
+                for n in f.events():
+                    if n.kind == "CXXNewExpr" and n.get("placement") and n.get("pargs"):
+                        if old_storage(f.node(n.get("pargs")[0])) is True:
+                            news[n.id] = n
+                if not news:
+                    continue
+                n_new += len(news)
+                bad = []
+
+                def transfer(n, st, f=f, news=news):
+                    if n.id in news:
+                        return [st | {n.id}]
+                    if st:
+                        gone = None
+                        w = write_of(n)
+                        if w and w[0] and w[0][0] == "this" and len(w[0]) == 2 and w[0][1] in ptr_fields and n.kind != "CtorInit":
+                            gone = "the buffer field %s is replaced at %s" % (w[0][1], n.loc)
+                        elif n in free_calls(f) and n.kind == "CXXMemberCallExpr" and n.args and old_storage(n.args[0]) is True:
+                            gone = "that storage is freed at %s" % n.loc
+                        if gone:
+                            for i in st:
+                                bad.append("an element is constructed at %s in the storage the container had on entry, and %s on the same path" % (news[i].loc, gone))
+                            return [frozenset()]
+                    return [st]
+                flow.run(f, [frozenset()], transfer, None, limit=200000)
+                ctx.inst(rule, f.sig, not bad, f.loc,
+                         "; ".join(sorted(set(bad))[:2]) if bad else "%d placement new(s) into the current storage, none on a path that gives that storage up" % len(news), f)
+        if n_new == 0:
+            ctx.broken("%s: no placement new into the container's storage found (anchor vanished)" % cls)
+
+
+# ---- R: reference-collapsing parameters are forwarded, not moved ---------------------------------------------------
+
+def check_forward_collapsed(ctx, unit, fns, rule="R.forward-collapsed"):
+    """A parameter declared `X &&` with X a template type parameter collapses to an lvalue reference when X is deduced /
+    given as an lvalue reference type.  In such an instantiation the caller still owns the object: applying std::move to
+    the parameter, or to anything reached through it, steals from the caller's lvalue.  (swap(T &a, T &b)-style code is not
+    concerned: its parameters are declared as lvalue references.)"""
+    ctx.rule(rule, "in instantiations where a `X &&` template parameter has collapsed to an lvalue reference, nothing reached through "
+             "that parameter is passed to std::move (it must be std::forward-ed)", 2)
+    n_inst = 0
+    for f in fns:
+        lv = {p["d"]: p for p in f.params() if p.get("collapsing") and p["t"].rstrip().endswith("&") and not p["t"].rstrip().endswith("&&")
+              and not p["t"].lstrip().startswith("const ")}
+        if not lv:
+            continue
+        n_inst += 1
+        bad = []
+        for n in f.events():
+            if n.kind == "CallExpr" and n.callee and n.callee["uq"] in ("std::move",) and n.args:
+                for x in n.args[0].walk():
+                    if x.kind == "DeclRefExpr" and x.d.get("d") in lv:
+                        bad.append("std::move(%s) at %s although `%s` is an lvalue reference here (%s)" % (
+                            canon(n.args[0])[:60].split("#")[0], n.loc, lv[x.d["d"]]["n"], lv[x.d["d"]]["t"][:50]))
+        ctx.inst(rule, f.sig[:160], not bad, f.loc, "; ".join(sorted(set(bad))[:2]) if bad else
+                 "%d collapsed lvalue-reference parameter(s), none moved from" % len(lv), f)
+    if n_inst < 2:
+        raise AnalysisBroken("anchor vanished: instantiations with a collapsed lvalue-reference parameter (found %d)" % n_inst)
+
+
+# ---- O: growth must not invalidate the argument it is about to copy --------------------------------------------------
+
+def check_grow_then_read_arg(ctx, unit, classes, rule="O.arg-survives-growth"):
+    """push/emplace/resize take their argument by reference.  The caller may pass a reference to an element of the same
+    container (v.push(v[0]), s.push(s.top())): if the member first lets a helper relocate the elements and release the old
+    buffer, and only then constructs the new element from the argument, it reads a destroyed object in freed storage.
+    (std::vector guarantees this use.)"""
+    ctx.rule(rule, "a member that takes an element / constructor arguments by reference does not read them after a call, on *this, of a "
+             "helper that may destroy the elements and release the buffer (the argument may alias an element)", len(classes))
+    for cls in classes:
+        for rec in recs_of(unit, cls):
+            fns = cls_fns(unit, rec["qn"])
+            # members that may end the lifetime of elements: they free a block or destroy elements explicitly
+            def kills(g):
+                return [n for n in g.events() if is_dtor_call(n) is not None] + list(free_calls(g))
+            may = {f.did for f in fns if kills(f) and f.kind != "dtor"}
+            grew = True
+            while grew:
+                grew = False
+                for f in fns:
+                    if f.did in may or f.kind == "dtor":
+                        continue
+                    if any(n.is_call() and n.callee and n.callee.get("did") in may and n.kind == "CXXMemberCallExpr" and path(n.child("obj")) == ("this",)
+                           for n in f.events()):
+                        may.add(f.did)
+                        grew = True
+            for f in fns:
+                if f.kind in ("ctor", "dtor") or f.get("access") == "private":
+                    continue
+                refp = {p["d"]: p for p in f.params() if p["t"].rstrip().endswith("&") and (
+                    (p.get("rt") or "") == ELEM or p.get("collapsing"))}
+                if not refp:
+                    continue
+                rel = [n for n in f.events() if n.is_call() and n.callee and n.callee.get("did") in may and n.kind == "CXXMemberCallExpr"
+                       and path(n.child("obj")) == ("this",)]
+                rel += kills(f)
+                if not rel:
+                    continue
+                bad = []
+                for n in f.events():
+                    if n.kind == "DeclRefExpr" and n.d.get("d") in refp:
+                        for r in rel:
+                            if f.reaches(r.id, n.id):
+                                bad.append((n, r))
+                ctx.inst(rule, f.sig, not bad, f.loc,
+                         ("argument `%s` is read at %s after %s at %s may have destroyed the elements and released the old buffer" % (
+                             refp[bad[0][0].d["d"]]["n"], bad[0][0].loc, (bad[0][1].callee["n"] + "()") if bad[0][1].callee else "the explicit destructor call",
+                             bad[0][1].loc)) if bad else
+                         "arguments are consumed before any relocation", f)
+
+
+def check_raw_storage_moves(ctx, unit, classes, rule="O.storage-not-byte-swapped"):
+    """A member array of aligned_storage holds live T objects.  Exchanging / assigning that array as a whole moves the
+    objects as raw bytes: no move constructor, no destructor, and objects with interior pointers (short strings,
+    self-referential nodes) are left pointing into the other container."""
+    ctx.rule(rule, "the inline element storage of a container is never swapped, assigned or memcpy'd as a whole (elements are "
+             "relocated only through T's move constructor and destructor)", len(classes))
+    for cls in classes:
+        for rec in recs_of(unit, cls):
+            stor = [fl["n"] for fl in rec["fields"] if "aligned_storage" in fl["t"]]
+            if not stor:
+                raise AnalysisBroken("anchor vanished: inline storage member of %s" % rec["qn"])
+            bad = []
+            fns = cls_fns(unit, rec["qn"]) + [f for f in unit.functions if f.name == "swap" and any((p.get("rt") or "") == cls for p in f.params())]
+            seen = set()
+            for f in fns:
+                if f.did in seen:
+                    continue
+                seen.add(f.did)
+                for n in f.events():
+                    if n.is_call() and n.callee and n.callee["n"] in ("swap", "memcpy", "memmove", "__builtin_memcpy") and n.args:
+                        for a in n.args:
+                            p_ = path(a)
+                            if p_ and p_[-1] in stor and len(p_) == 2:
+                                bad.append("%s(%s) at %s in %s" % (n.callee["n"], ".".join(p_).split("#")[0], n.loc, f.name))
+                    w = write_of(n)
+                    if w and w[0] and w[0][-1] in stor and len(w[0]) == 2 and n.kind == "BinaryOperator":
+                        bad.append("assignment to %s at %s in %s" % (".".join(w[0]).split("#")[0], n.loc, f.name))
+            ctx.inst(rule, cls, not bad, rec["loc"], ("; ".join(sorted(set(bad))[:2]) + ": live elements are exchanged as raw bytes") if bad else
+                     "storage member %s is only accessed element-wise" % stor, None)
